@@ -69,8 +69,37 @@ func portsOf(info *types.Info, fd *ast.FuncDecl, form string, siblings map[strin
 			items[cond] = append(items[cond], suffixOf(tok))
 		}
 	}
-	// local string temporaries that are pure (single assignment) are inlined by skeletonWith via temps
+	// local string temporaries assigned once (portPrefix := ", p" + … ) are inlined into the text that
+	// uses them, so that a separator kept in the prefix still separates the ports
 	temps := map[types.Object]string{}
+	{
+		cnt := map[types.Object]int{}
+		def := map[types.Object]ast.Expr{}
+		ast.Inspect(fd.Body, func(m ast.Node) bool {
+			if as, ok := m.(*ast.AssignStmt); ok && len(as.Lhs) == len(as.Rhs) {
+				for i, l := range as.Lhs {
+					if id, ok := l.(*ast.Ident); ok && id.Name != "result" {
+						if o := info.ObjectOf(id); o != nil {
+							cnt[o]++
+							def[o] = as.Rhs[i]
+						}
+					}
+				}
+			}
+			return true
+		})
+		for round := 0; round < 3; round++ {
+			for o, n := range cnt {
+				if n != 1 {
+					continue
+				}
+				if b, ok := o.Type().Underlying().(*types.Basic); !ok || b.Info()&types.IsString == 0 {
+					continue
+				}
+				temps[o] = skeletonWith(info, def[o], temps)
+			}
+		}
+	}
 	var walk func(list []ast.Stmt, cond string)
 	opTest := func(e ast.Expr) (string, bool) {
 		// X.HasOp("name")
@@ -104,6 +133,23 @@ func portsOf(info *types.Info, fd *ast.FuncDecl, form string, siblings map[strin
 	}
 	walk = func(list []ast.Stmt, cond string) {
 		for _, st := range list {
+			// guard clauses: `if !X.HasOp("k2r") { return "" }` puts the rest of the list under op:k2r;
+			// `if !ok { return "" }` (a failed lookup) is transparent
+			if ifs, ok := st.(*ast.IfStmt); ok && ifs.Else == nil && len(ifs.Body.List) == 1 {
+				if ret, ok := ifs.Body.List[0].(*ast.ReturnStmt); ok && len(ret.Results) == 1 {
+					if sv, ok := constStr(info, ret.Results[0]); ok && sv == "" {
+						if ue, ok := ast.Unparen(ifs.Cond).(*ast.UnaryExpr); ok && ue.Op == token.NOT {
+							if name, ok := opTest(ue.X); ok {
+								cond = join(cond, "op:"+name)
+								continue
+							}
+							if id, ok := ast.Unparen(ue.X).(*ast.Ident); ok && id.Name == "ok" {
+								continue
+							}
+						}
+					}
+				}
+			}
 			switch x := st.(type) {
 			case *ast.AssignStmt:
 				if len(x.Lhs) != 1 || len(x.Rhs) != 1 {
@@ -124,6 +170,22 @@ func portsOf(info *types.Info, fd *ast.FuncDecl, form string, siblings map[strin
 				if id != nil && id.Name == "result" {
 					if call, ok := ast.Unparen(x.Rhs[0]).(*ast.CallExpr); ok {
 						if c := core.CalleeOf(info, call); c != nil {
+							// a port-list helper: stackHeaderPorts(prefix, "senderData", "senderWrite", …)
+							if fn, ok := c.(*types.Func); ok && fn.Pkg() != nil && fn.Pkg().Path() == info.ObjectOf(fd.Name).Pkg().Path() && !declForm {
+								var names []string
+								allConst := len(call.Args) >= 2
+								for _, a := range call.Args[1:] {
+									if sname, ok := constStr(info, a); ok {
+										names = append(names, sname)
+									} else {
+										allConst = false
+									}
+								}
+								if sig, ok := fn.Type().(*types.Signature); ok && allConst && sig.Variadic() {
+									items[cond] = append(items[cond], names...)
+									continue
+								}
+							}
 							if sib, ok := siblings[c.Name()]; ok && sib != fd {
 								sub, _ := portsOf(info, sib, form, nil)
 								for sc, l := range sub {
@@ -433,10 +495,8 @@ func (ri *rolesInterp) callAll(x *ast.CallExpr, env map[types.Object]rval) ([]rv
 			}
 		}
 	}
-	saved := ri.count
 	ri.lastRet = nil
-	sig, _ := ri.exec(fd.Body.List, cenv)
-	ri.count = saved // a helper that classifies does not build the lists
+	sig, _ := ri.exec(fd.Body.List, cenv) // entries a helper appends (endpoints(…) returning the lists) count as well
 	if sig != rReturn {
 		return nil, false
 	}
